@@ -38,6 +38,11 @@ fn main() {
                        let mut pos = s2 + (1usize << 60) + 1; for _ in 0..8 { for _ in 0..32 { pos += 2; b.try_set(pos, 1).unwrap(); pos += 1; } }
                        let v = RLVector::from(b); format!("len {} select_zero(0) {:?} select_zero(1<<60) {:?}", v.len(), v.select_zero(0), v.select_zero(1 << 60)) }
             "F10" => { let f = serialize::temp_file_name("demo-iv"); let iv = IntVector::from(vec![1u64, 2, 3]); serialize::serialize_to(&iv, &f).unwrap(); let m = MemoryMap::new(&f, MappingMode::ReadOnly).unwrap(); let r = IntVectorMapper::new(&m, usize::MAX).map(|x| x.len()).map_err(|e| e.kind()); let s = format!("{:?}", r); drop(m); std::fs::remove_file(&f).unwrap(); s }
+            "F12" => { let f = serialize::temp_file_name("demo-f12"); let v: Vec<u64> = vec![3, 2, u64::MAX - 2, u64::MAX - 2]; serialize::serialize_to(&v, &f).unwrap();
+                       let m = MemoryMap::new(&f, MappingMode::ReadOnly).unwrap();
+                       let r = MappedSlice::<u64>::new(&m, 3);
+                       let s = match &r { Ok(sl) => format!("Ok: slice of {} items over a {}-element map, map_len {}", sl.len(), m.len(), sl.map_len()), Err(e) => format!("Err({:?})", e.kind()) };
+                       drop(r); drop(m); std::fs::remove_file(&f).unwrap(); s }
             _ => "unknown".to_string(),
         }
     });
